@@ -54,7 +54,19 @@ def _case(draw, tier):
         v["face"] = draw(st.integers(0, nf - 1))
     elif kind == "nongrid":
         v["obj"] = draw(st.sampled_from(["none", "int", "str", "dataset", "ndarray", "tuple"]))
-    return {"mesh": mesh, "variant": v}
+    # constructor and history: grids from Cartesian face vertices derive lon/lat lazily; derived quantities may
+    # have been materialised on one side only before the comparison
+    ctor = draw(st.sampled_from(["topology", "topology", "topology", "vertices-xyz", "vertices-latlon"]))
+    if ctor != "topology" and kind not in ("lon", "lat", "lonlat", "same", "copy", "nongrid"):
+        ctor = "topology"
+    if ctor != "topology" and "delta" in v:
+        v["delta"] = max(v["delta"], 1e-6)
+    derived = ["edge_node_connectivity", "node_face_connectivity", "face_areas", "node_lon", "node_x", "face_lon", "n_edge", "bounds"]
+    hist = {
+        "g1": sorted(draw(st.sets(st.sampled_from(derived), max_size=3))) if draw(st.booleans()) else [],
+        "g2": sorted(draw(st.sets(st.sampled_from(derived), max_size=3))) if draw(st.booleans()) else [],
+    }
+    return {"mesh": mesh, "variant": v, "ctor": ctor, "history": hist}
 
 
 def strategy(tier, excl):
@@ -64,6 +76,10 @@ def strategy(tier, excl):
 def classify(case):
     k = case["variant"]["kind"]
     labels = [f"kind:{k}"] + [l for l in meshgen.mesh_labels(case["mesh"]) if l.startswith("family") or l in ("mixed-size", "partial")]
+    labels.append("ctor:" + case.get("ctor", "topology"))
+    h = case.get("history", {})
+    if h.get("g1") != h.get("g2"):
+        labels.append("derived-on-one-side-only")
     return labels, k in NONTRIVIAL
 
 
@@ -130,18 +146,30 @@ def run_case(case, ctx):
     fails = []
     W = max(len(f) for f in mesh["faces"])
 
+    ctor = case.get("ctor", "topology")
+
     def mk(m):
         INT_DTYPE, FILL = build.consts()
         nodes = np.asarray(m["nodes"], float)
         w = max(W, max(len(f) for f in m["faces"]))
-        return ux.Grid.from_topology(nodes[:, 0].copy(), nodes[:, 1].copy(), build.padded_faces(m, width=w), fill_value=FILL)
+        if ctor == "topology":
+            return ux.Grid.from_topology(nodes[:, 0].copy(), nodes[:, 1].copy(), build.padded_faces(m, width=w), fill_value=FILL)
+        from .. import sphere as S
+
+        dim = 2 if ctor == "vertices-latlon" else 3
+        arr = np.full((len(m["faces"]), w, dim), float(FILL))
+        for i, f in enumerate(m["faces"]):
+            arr[i, : len(f)] = [m["nodes"][j] if dim == 2 else S.ll2xyz(*m["nodes"][j]) for j in f]
+        return ux.Grid.from_face_vertices(arr, latlon=(dim == 2))
 
     g1 = mk(mesh)
+    for q in case.get("history", {}).get("g1", []):
+        getattr(g1, q)
 
     def chk(oracle, cond, detail):
         ctx.ev(oracle)
         if not cond:
-            fails.append(Failure(oracle, f"kind:{k}", "wrong", detail))
+            fails.append(Failure(oracle, f"kind:{k}:{ctor}", "wrong", detail + f" (constructor {ctor}, derived before comparing: {case.get('history')})"))
 
     # reflexive
     chk("reflexive", (g1 == g1) is True and (g1 != g1) is False, "g == g is not True")
@@ -176,6 +204,9 @@ def run_case(case, ctx):
         m2, expect = _variant_mesh(mesh, v)
         g2 = mk(m2)
 
+    if k != "copy":
+        for q in case.get("history", {}).get("g2", []):
+            getattr(g2, q)
     e12, e21 = (g1 == g2), (g2 == g1)
     n12, n21 = (g1 != g2), (g2 != g1)
     chk("eq_iff_same", bool(e12) == expect, f"g1 == g2 gave {e12!r}, expected {expect} for variant {v}")
